@@ -14,7 +14,7 @@ from ..rules import ncallee, norm
 META = {
     "level": "other",
     "technique": "typed-HIR shape rules (probe-loop exit, statement order of hash-table mutation vs fallible steps, skip discipline) + MIR must-pass-through (dirty flag, flush order)",
-    "claim": "Decides termination of the four hash-probe loops, failure atomicity of add/remove/rename with respect to the hash table, the dirty→flush→Drop persistence chain, and that compact drops nothing but internal files. Does not replay operation histories or check table layout after growth. Also: insertion reuses deleted slots (truth table); absolute and archive-relative positions are never mixed (offset-frame analysis over the archive reader / modifier). Wave 5: compact() re-opens the read-only view on every path before reading through it (or flush() does); the probe-loop wrap exit compares with the start value symbolically (rule shared with C05.G). Wave 6: listfile maintenance tests and edits names line by line (no substring contains/replace on the text); adjusted keys use the uncompressed size (shared with C01).",
+    "claim": "Decides termination of the four hash-probe loops, failure atomicity of add/remove/rename with respect to the hash table, the dirty→flush→Drop persistence chain, and that compact drops nothing but internal files. Does not replay operation histories or check table layout after growth. Also: insertion reuses deleted slots (truth table); absolute and archive-relative positions are never mixed (offset-frame analysis over the archive reader / modifier). Wave 5: compact() re-opens the read-only view on every path before reading through it (or flush() does); the probe-loop wrap exit compares with the start value symbolically (rule shared with C05.G). Wave 6: listfile maintenance tests and edits names line by line (no substring contains/replace on the text); adjusted keys use the uncompressed size (shared with C01). Also (wave 6, from a random-history harness): every stream_position() of MutableArchive is dominated by a seek or write of the same function (positions are never taken from the ambient cursor); compact() resets every field another operation sets; update_header writes each header slot from the field the reader takes from that slot (HET/BET slots unarmed: masked by the classic-table fallback); rename_file refuses or re-encrypts files whose key derives from the name.",
     "note": "Trusted: Rust drop semantics; the hash table is the only name→block binding. A fallible step after the hash mutation is reported per (mutator, callee).",
     "assumptions": ["listfile maintenance failures are the only fallible steps that legitimately follow the hash-table update (listed as known findings with reproductions)"],
     "explanation": "MutableArchive::{add_file_data, remove_file, rename_file, compact, flush, Drop}, the two MutableArchive probe loops, HashTable::find_file and ArchiveBuilder::add_to_hash_table.",
@@ -31,9 +31,23 @@ def probe_step(n):
     l = hirq.strip(n["l"])
     if l.get("k") != "path" or "local" not in l["res"]:
         return None
-    r = hirq.render(n["r"])
     v = l["res"]["local"]
-    if re.search(r"\(\(?%s \+ 1\)? [&%%] " % re.escape(v), r) or re.search(r"\(%s \+ 1\) as _\) [&%%]" % re.escape(v), r):
+
+    def is_v(e):
+        e = hirq.strip(e)
+        while e.get("k") == "cast":
+            e = hirq.strip(e["e"])
+        return e.get("k") == "path" and (e.get("res") or {}).get("local") == v
+
+    def succ(e):
+        e = hirq.strip(e)
+        while e.get("k") == "cast":
+            e = hirq.strip(e["e"])
+        return e.get("k") == "bin" and e["op"] == "+" and ((is_v(e["l"]) and hirq.lit_int(hirq.strip(e["r"])) == 1) or (is_v(e["r"]) and hirq.lit_int(hirq.strip(e["l"])) == 1))
+    r = hirq.strip(n["r"])
+    while r.get("k") == "cast":
+        r = hirq.strip(r["e"])
+    if r.get("k") == "bin" and ((r["op"] == "%" and succ(r["l"])) or (r["op"] == "&" and (succ(r["l"]) or succ(r["r"])))):
         return v
     return None
 
@@ -427,3 +441,175 @@ def run(ctx):
                         "file data added in the session starts right behind the old tables: a table that grew by more than the alignment slack overwrites the first appended files (content differs after reopen, no error)")
         if not found:
             ctx.bad(R_grow, "write_tables|shape", wt.where, "no seek to the block table position recognised", "shape changed")
+
+    _session_state_rules(ctx, mpq)
+    _rename_key_rule(ctx, mpq)
+
+
+def _self_field(e):
+    e = hirq.strip(e)
+    while e.get("k") in ("ref", "un", "cast"):
+        e = hirq.strip(e["e"])
+    if e.get("k") == "field" and hirq.render(e["e"]) in ("self", "(*self)", "*self"):
+        return e["name"]
+    return None
+
+
+def _session_state_rules(ctx, mpq):
+    """state that outlives one operation: the file cursor, the table positions remembered for the header, the header rewrite itself"""
+    from .. import wire
+    from .c02 import pick_version, VERS
+    MA = "wow_mpq::modification::MutableArchive::"
+    meths = [f for f in mpq.fn_list if f.kind != "Closure" and f.path.startswith(MA)]
+
+    # (1) the shared file handle's cursor is wherever the last read or write ended (reading the listfile leaves it inside the file
+    # data): a position taken from it means something only after this function itself has placed or advanced the cursor
+    R_cur = ctx.rule("C06.positions-not-taken-from-the-ambient-cursor", "in MutableArchive every File::stream_position() is dominated, in the same function, by a seek or a write on the file", floor=1)
+    for f in meths:
+        if not f.mir or not f.mir.get("blocks"):
+            continue
+        sp = [(bb, t) for bb, t in mirg.iter_calls(f) if re.search(r"Seek>::stream_position$", mirg.callee(t) or "")]
+        if not sp:
+            continue
+        ctx.saw_fn(f)
+        cfg = mirg.Cfg(f)
+        placed = [bb for bb, t in mirg.iter_calls(f) if re.search(r"Seek>::(seek|rewind)$|Write>::write_all$", mirg.callee(t) or "")]
+        for bb, t in sp:
+            if any(p != bb and cfg.dominates(p, bb) for p in placed):
+                ctx.ok(R_cur, {"fn": f.path.split("::")[-1], "line": t["ln"]})
+            else:
+                n_ = sum(1 for b2, t2 in sp if t2["ln"] < t["ln"])
+                ctx.bad(R_cur, "%s|stream_position#%d" % (f.path.split("::")[-1], n_), "%s:%d" % (f.file, t["ln"]),
+                        "`stream_position()` is read before this function has placed the cursor: the value is wherever the previous operation's last read or write ended",
+                        "tables (or data) written at that position overwrite file data or the header whenever the last I/O was not at the end of the archive — e.g. after the (listfile) was read for an update, or when nothing was read at all: files the history never touched read back as other bytes")
+
+    # (2) compact() replaces the archive file: everything an earlier operation remembered about the old file must be forgotten
+    R_rst = ctx.rule("C06.compact-forgets-the-replaced-file", "every field of MutableArchive that some operation other than compact assigns or fills is re-assigned or cleared by compact", floor=8)
+    MUTM = ("insert", "clear", "push", "remove", "extend", "retain", "get_or_insert_with", "entry", "drain", "truncate", "pop", "append")
+    writers = {}
+    for f in meths:
+        if not f.hir:
+            continue
+        nm = f.path.split("::")[-1]
+        for n in hirq.walk(f.hir["body"]):
+            fl = None
+            if n.get("k") in ("assign", "assignop"):
+                fl = _self_field(n["l"])
+            elif n.get("k") == "mcall" and n["m"] in MUTM:
+                fl = _self_field(n["recv"])
+            if fl:
+                writers.setdefault(fl, set()).add(nm)
+    cp = next((f for f in meths if f.path == MA + "compact"), None)
+    if cp is None:
+        ctx.bad(R_rst, "compact|missing", "-", "function not found", "anchor gone")
+    else:
+        ctx.saw_fn(cp)
+        for fl, ws in sorted(writers.items()):
+            others = sorted(ws - {"compact", "open", "new", "create"})
+            if not others:
+                continue
+            if "compact" in ws:
+                ctx.ok(R_rst, {"field": fl, "set_by": others[:4]})
+            else:
+                ctx.bad(R_rst, "compact|keeps|%s" % fl, cp.where, "`self.%s` (set by %s) survives compact()" % (fl, ", ".join(others[:3])),
+                        "the value describes the file compact just replaced: the next flush acts on it — a table position of the old file is written into the new file's header and the archive opens without a block table")
+
+    # (3) flush rewrites the header in place: the fields go where MpqHeader::read expects them
+    R_hdr = ctx.rule("C06.header-rewrite-slots-are-the-readers", "every value update_header writes derives from the MpqHeader field that MpqHeader::read_with_limits reads from that slot (per version)", floor=20)
+    uh = next((f for f in meths if f.path == MA + "update_header"), None)
+    rd = mpq.fns.get("wow_mpq::header::MpqHeader::read_with_limits")
+    hdr = next((a for a in mpq.items["adts"] if a["path"] == "wow_mpq::header::MpqHeader"), None)
+    if uh is None or rd is None or hdr is None or not uh.hir:
+        ctx.bad(R_hdr, "update_header|missing", "-", "update_header, MpqHeader::read_with_limits or MpqHeader not found", "anchor gone")
+        return
+    ctx.saw_fn(uh)
+    ctx.saw_fn(rd)
+    hfields = {fl["name"] for fl in hdr["fields"]}
+    wt, _ = wire.extract(mpq, uh, "w")
+    rt, _ = wire.extract(mpq, rd, "r")
+    lets = {}
+    for l in hirq.find(uh.hir["body"], "let"):
+        if l["pat"].get("k") == "bind" and l.get("init") is not None:
+            lets[l["pat"]["name"]] = l["init"]
+
+    def sources(name, depth=0):
+        """MpqHeader fields a written local derives from"""
+        if name in hfields:
+            return {name}
+        init = lets.get(name)
+        if init is None or depth > 3:
+            return set()
+        out = {x["name"] for x in hirq.walk(init) if x.get("k") == "field" and x["name"] in hfields}
+        for x in hirq.walk(init):
+            if x.get("k") == "path" and (x.get("res") or {}).get("local") in lets and x["res"]["local"] != name:
+                out |= sources(x["res"]["local"], depth + 1)
+        return out
+    for ver in VERS:
+        ws = [t for t in pick_version(wt, ver) if t.k in ("P", "B")]
+        rs = [t for t in pick_version(rt, ver) if t.k in ("P", "B")][:len(ws)]
+        if [t.w for t in ws] != [t.w for t in rs]:
+            ctx.bad(R_hdr, "update_header|%s|widths" % ver, uh.where, "%s: writes widths %s where the reader reads %s" % (ver, [t.w for t in ws], [t.w for t in rs]), "every later header field lands at the wrong offset")
+            continue
+        for w_, r_ in zip(ws, rs):
+            rn = re.sub(r"_raw$", "", r_.name or "")
+            if rn not in hfields or not w_.name:
+                continue
+            if rn in ("het_table_pos", "bet_table_pos"):
+                # not decided here: a wrong HET/BET position makes the reader drop those tables and resolve every name through the
+                # classic tables, which the modifier always keeps — the reopened map is the same.  (Today the two are written swapped;
+                # recorded in DESIGN §8.4 as an observation outside the property.)
+                if ver == "V3":
+                    ctx.note_unarmed(R_hdr, rn, "HET/BET positions: a wrong value is masked by the classic-table fallback, so the reopened map does not depend on it")
+                continue
+            src = sources(w_.name)
+            if not src:
+                continue
+            if rn in src:
+                ctx.ok(R_hdr, {"version": ver, "slot": rn, "written_from": sorted(src)})
+            else:
+                ctx.bad(R_hdr, "update_header|%s|%s" % (ver, rn), uh.where, "%s: the slot the reader takes as `%s` is written from `%s` (%s)" % (ver, rn, w_.name, ", ".join(sorted(src))),
+                        "after any flush the header names one table's position as another's: the reader rejects or misreads both tables")
+
+
+def _rename_key_rule(ctx, mpq):
+    """the key of an encrypted file derives from its name (readers compute hash_string(requested name, FILE_KEY)): moving the hash
+    entry alone leaves the data under the old name's key.  rename_file either refuses encrypted files before it changes anything,
+    or re-encrypts the data"""
+    R = ctx.rule("C06.rename-accounts-for-the-name-derived-key", "rename_file tests the block's encryption flag and leaves with Err before its first table mutation (or re-encrypts the file data)", floor=1)
+    f = mpq.fns.get("wow_mpq::modification::MutableArchive::rename_file")
+    if f is None or not f.hir:
+        ctx.bad(R, "rename_file|missing", "-", "function not found", "anchor gone")
+        return
+    ctx.saw_fn(f)
+    body = f.hir["body"]
+    order = {id(n): i for i, n in enumerate(hirq.walk(body))}
+    muts = [order[id(n)] for n in hirq.walk(body)
+            if (n.get("k") == "assign" and re.search(r"hash_table|block_index|EMPTY_DELETED", hirq.render(n)))
+            or (n.get("k") == "mcall" and n["m"] in ("add_to_hash_table", "remove_from_listfile", "update_listfile"))]
+    if not muts:
+        ctx.bad(R, "rename_file|shape", f.where, "no hash-table mutation recognised", "shape changed")
+        return
+    first = min(muts)
+    lets = {l["pat"]["name"]: l["init"] for l in hirq.find(body, "let") if l["pat"].get("k") == "bind" and l.get("init") is not None}
+
+    def mentions_enc(e, depth=0):
+        for x in hirq.walk(e):
+            if x.get("k") == "mcall" and x["m"] == "is_encrypted":
+                return True
+            if x.get("k") == "path" and re.search(r"ENCRYPTED$", (x.get("res") or {}).get("def") or ""):
+                return True
+        if depth > 3:
+            return False
+        return any(x.get("k") == "path" and (x.get("res") or {}).get("local") in lets and mentions_enc(lets[x["res"]["local"]], depth + 1) for x in hirq.walk(e))
+    guard = None
+    for n in hirq.find(body, "if"):
+        if order[id(n)] < first and mentions_enc(n["c"]) and any(x.get("k") == "ret" and "Err" in hirq.render(x.get("e")) for x in hirq.walk(n["then"])):
+            guard = n
+    reenc = any(re.search(r"encrypt_block|reencrypt|re_encrypt|recrypt", (c.get("fn") or "") + " " + (c.get("m") or "")) for c in hirq.walk(body) if c.get("k") in ("call", "mcall"))
+    if guard is not None:
+        ctx.ok(R, {"fn": "rename_file", "refuses": hirq.render(guard["c"])[:60], "before_first_mutation": True})
+    elif reenc:
+        ctx.ok(R, {"fn": "rename_file", "re_encrypts": True})
+    else:
+        ctx.bad(R, "rename_file|key-follows-name", f.where, "rename_file moves the hash entry of any file: no test of the encryption flag precedes the first table mutation and nothing re-encrypts the data",
+                "an encrypted file stays encrypted under the key of its old name; read under the new name it decrypts to garbage (or fails to decompress) although rename reported success")
